@@ -319,7 +319,7 @@ func (m *manager) run(u unit) (out unitOutcome, err error) {
 				}
 				switch g.T {
 				case "viol":
-					c.violation(u, g.Key, g.What, g.Seq)
+					c.violation(u, g.Key, g.What, g.Seq, g.Stack)
 				case "slow":
 					c.mu.Lock()
 					if len(c.slow) < 40 {
@@ -455,9 +455,12 @@ func (c *coord) noteClass(u unit, class string, seq int) {
 }
 
 // violation regenerates the mutant in the parent so that the replay file is self-contained.
-func (c *coord) violation(u unit, key, what string, seq int) {
+func (c *coord) violation(u unit, key, what string, seq int, stack ...string) {
 	if replaySink != nil {
 		replaySink.mu.Lock()
+		if len(stack) > 0 && stack[0] != "" {
+			what += "\n" + stack[0]
+		}
 		replaySink.viol = append(replaySink.viol, key+": "+what)
 		replaySink.mu.Unlock()
 		return
@@ -479,7 +482,11 @@ func (c *coord) violation(u unit, key, what string, seq int) {
 	if !strings.Contains(what, "[") {
 		what = fmt.Sprintf("%s [%s at %s, seed %s, %s, content %s]", what, u.Ex, cd.mutPath(), u.Seed, desc, preview(data))
 	}
-	c.r.Violation(key, what, mkReplay(kind, u, cd, desc, data))
+	rd := mkReplay(kind, u, cd, desc, data)
+	if len(stack) > 0 {
+		rd.Stack = stack[0]
+	}
+	c.r.Violation(key, what, rd)
 }
 
 // seedsFor lists the seeds of one extractor (deduplicated by content), minimal documents first.
